@@ -30,6 +30,9 @@ def families(tier):
     deep = {'cache': 'c/s/cache', 'universe': ['c', 'c/s', 'o', 'o/d', 'o/d/g', 'in', 'in/x']}
     q.append({'name': 'A3', 'params': dict(deep, hist='BC', kinds=['is_file'], roles=['in/x'], targets=['o/d/g', 'c/t', 'c/s/t'], modes=['ok']), 'weight': 1})
     q.append({'name': 'A3', 'params': dict(deep, hist='BBC', kinds=['is_file'], roles=['in/x'], targets=['o/d/g', 'c/t'], modes=['ok']), 'weight': 1})
+    # part of what the previous build created is removed by hand, the next build recreates it, then clean
+    q.append({'name': 'A3', 'params': dict(base, hist='BMBC', kinds=['is_file'], roles=['in/x'], targets=['o/d/g'], modes=['ok'],
+                                           mut_paths=['o/d', 'o/d/g', 'o'], mut_kinds=['rmtree', 'delete']), 'weight': 1})
     q.append({'name': 'P2', 'params': dict(base, hist='BBC', universe=['c', 'o', 'o/d', 'o/dx']), 'weight': 1})
     q.append({'name': 'CD', 'params': dict(base, hist='BBC', universe=['c', 'c/x', 'c/sub']), 'weight': 1})
     q.append({'name': 'CD', 'params': dict(base, hist='BMBC', universe=['c', 'c/x', 'c/sub'], mut_paths=['c/x', 'c/sub', 'c/z']), 'weight': 1})
